@@ -161,6 +161,12 @@ func (c *RunnerCloserManager) AddCloser(closers ...any) error {
 
 // Add implements RunnerManager.Run.
 func (c *RunnerCloserManager) Run(ctx context.Context) error {
+	// A manager that has been started is refused at once; the first Run holds the
+	// lock below for as long as the closers run.
+	if c.running.Load() {
+		return ErrManagerAlreadyStarted
+	}
+
 	c.mngr.lock.Lock()
 	if !c.running.CompareAndSwap(false, true) {
 		c.mngr.lock.Unlock()
